@@ -255,7 +255,8 @@ type evalLog struct {
 	firstBad            int  // what went non-finite first: 1 a value or gradient at a finite point, 2 an evaluation point
 	best                float64
 	hasBest             bool
-	lastImprove         int // value of nFunc when the lowest F so far was found
+	lastImprove         int         // value of nFunc when the lowest F so far was found
+	supplied            [][]float64 // points whose values were handed to the method (NelderMead.InitialVertices)
 }
 
 func newEvalLog(dim, capacity int) *evalLog {
@@ -364,6 +365,11 @@ func (l *evalLog) incHess() { l.nHess++ }
 func (l *evalLog) incStatus() int { l.nStatus++; return l.nStatus }
 
 func (l *evalLog) evaluatedAt(x []float64) bool {
+	for _, v := range l.supplied {
+		if sameBits(v, x) {
+			return true
+		}
+	}
 	for k := 0; k < l.n; k++ {
 		same := true
 		for i := 0; i < l.dim; i++ {
@@ -503,6 +509,7 @@ type minInst struct {
 	writerFail int
 	isolated   int  // 0 no; 1 FuncEvaluations only; 2 MajorIterations only; 3 Runtime only; 4 no limit at all: default settings on a convex quadratic
 	nilSet     bool // isolated == 4: pass settings == nil
+	nmVerts    bool // NelderMead: the initial simplex (initX first) and its values are supplied
 	cmaStop    int  // CmaEsChol.StopLogDet: 0 NaN (criterion off), 1 default, 2 +Inf (converged after the first generation)
 	costly     bool
 	fcAbs      float64 // FunctionConverge parameters (convKind 2)
@@ -654,6 +661,9 @@ func drawMinimize(t *simrt.Tape) *minInst {
 	if in.method == mListSearch {
 		in.rows = small(12)
 	}
+	if in.method == mNelderMead {
+		in.nmVerts = t.Choose(simrt.KWorkload, 4) == 3
+	}
 	in.knob = t.Choose(simrt.KWorkload, 4)
 	if (in.method == mLBFGS || in.method == mNelderMead) && in.ls == 0 && in.knob == 0 && t.Choose(simrt.KWorkload, 3) == 2 {
 		in.nilMethod = true
@@ -686,6 +696,9 @@ func (in *minInst) describe(m map[string]interface{}) {
 	m["gradient_threshold"] = fmt.Sprint(in.set.GradientThreshold)
 	m["converger"] = []string{"default", "NeverTerminate", fmt.Sprintf("FunctionConverge{Absolute:%v Relative:%v Iterations:%d}", in.fcAbs, in.fcRel, in.fcIter)}[in.convKind]
 	m["init_values"] = []string{"none", "F", "F+Grad", "F+Grad+Hess"}[in.initVals]
+	if in.nmVerts {
+		m["neldermead_initial_simplex_supplied"] = true
+	}
 	if in.method == mCmaEs {
 		m["cmaes_stop_log_det"] = []string{"NaN", "default", "+Inf"}[in.cmaStop]
 	}
@@ -772,7 +785,21 @@ func (in *minInst) build() *minRun {
 	case mNewton:
 		r.method = &optimize.Newton{Linesearcher: ls, GradStopThreshold: gst, Increase: []float64{0, 5, 2, 0}[in.knob]}
 	case mNelderMead:
-		r.method = &optimize.NelderMead{SimplexSize: []float64{0, 1, 0.25, 0}[in.knob]}
+		nm := &optimize.NelderMead{SimplexSize: []float64{0, 1, 0.25, 0}[in.knob]}
+		if in.nmVerts {
+			// a supplied initial simplex: the initial point and one step of
+			// 1/2 or -1/4 along every axis, with their exact values
+			for i := 0; i <= in.dim; i++ {
+				v := append([]float64(nil), in.initX...)
+				if i > 0 {
+					v[i-1] += []float64{0.5, -0.25}[(i+int(in.seed))%2]
+				}
+				nm.InitialVertices = append(nm.InitialVertices, v)
+				nm.InitialValues = append(nm.InitialValues, in.obj.F(v))
+				r.log.supplied = append(r.log.supplied, v)
+			}
+		}
+		r.method = nm
 	case mCmaEs:
 		r.method = &optimize.CmaEsChol{Population: in.pop, ForgetBest: in.forgetBest, StopLogDet: []float64{math.NaN(), 0, math.Inf(1)}[in.cmaStop], Src: rand.NewPCG(in.seed, 77), InitStepSize: []float64{0, 0.5, 2, 0}[in.knob]}
 		r.pop = in.pop
